@@ -50,6 +50,7 @@ theorem applyFrame_carriesGo (idx : Nat) (f : Frame) (cjs : Bool) {e : GoErr} {f
             JsKind.hasFinally, JsKind.rethrows, CarriesGo, JsVal.wrapsGo, JsVal.goErrValue, JsVal.isGoErrorInstance,
             JsVal.key, JsKey.isGoErrorInstance]
       | ja => simp [Frame.swallows] at hsw
+      | fot => simp [Frame.swallows] at hsw
       | rfw => simp [Frame.rewraps] at hrw
       | _ =>
         cases cjs <;>
@@ -70,6 +71,7 @@ theorem applyFrame_carriesGo (idx : Nat) (f : Frame) (cjs : Bool) {e : GoErr} {f
             JsKind.hasFinally, JsKind.rethrows, CarriesGo, JsVal.wrapsGo, JsVal.goErrValue, JsVal.isGoErrorInstance,
             JsVal.key, JsKey.isGoErrorInstance]
       | ja => simp [Frame.swallows] at hsw
+      | fot => simp [Frame.swallows] at hsw
       | rfw => simp [Frame.rewraps] at hrw
       | _ =>
         cases cjs <;>
@@ -445,6 +447,7 @@ theorem applyFrame_exact (idx : Nat) (f : Frame) (cjs : Bool) {ex0 : Exc} {fl : 
   | fcv => simp [Frame.rethrows] at hr
   | rfw => simp [Frame.rewraps] at hrw
   | ja => simp [Frame.swallows] at hsw
+  | fot => simp [Frame.swallows] at hsw
   | _ =>
     cases cjs <;>
       simp [applyFrame, callable, invoke, jsCall, runWrapped, vmTry, handleThrow, handleThrowLoop,
@@ -512,10 +515,10 @@ theorem hostRun_exact (entry : Entry) (chain : List Frame) (p : Payload) {ex0 : 
 
 /-- With swallowing frames allowed: every catch block / async rejection in the whole run received `v` itself. -/
 theorem hostRun_log_ok (entry : Entry) (chain : List Frame) (p : Payload) {v : JsVal}
-    (hp : Carries v p.flow) (hrw : ∀ f ∈ chain, f.rewraps = false)
+    (hp : Carries v p.flow) (hrw : ∀ f ∈ chain, f.rewraps = false ∧ f.replaces = false)
     (hu : v.goErrValue = none ∨ ∀ f ∈ chain, f.unwraps = false) :
     ∀ l ∈ (hostRun entry chain p).log, LogOk v l := by
-  have hsegrw := allSegs_frames (P := fun f => f.rewraps = false) chain hrw
+  have hsegrw := allSegs_frames (P := fun f => f.rewraps = false ∧ f.replaces = false) chain hrw
   have hsegu : v.goErrValue = none ∨ ∀ s ∈ allSegs chain, ∀ q ∈ s, q.2.unwraps = false := by
     rcases hu with h | h
     · exact Or.inl h
